@@ -7,7 +7,10 @@
             (spec_convert: exact value or error; stored context wins; every declared parameter
             present; met <=> the expression is true)
      KNOWN  implementation == as-coded model, the result contradicts the property, and the model
-            computed the trigger: int_clamp (Int64() clamped) / int_fraction_rounded *)
+            computed the trigger int_fraction_rounded (a non-integral decimal string rounded to
+            an integer by the 64-bit parse).  The former trigger int_clamp (finding F8) is gone
+            with the repair fd0d452: a clamped conversion differs from the model AND from the
+            property, i.e. it is a PROP again. *)
 
 let z_of (neg : bool) (mag : string) : z =
   if dec_is_zero mag then Z0 else if neg then Zneg (pos_of_dec mag) else Zpos (pos_of_dec mag)
@@ -154,8 +157,8 @@ let cres_str r = match r with COk v -> "ok " ^ cval_str v | CErr -> "err" | CPan
 let cres_eq a b = match a, b with
   | COk x, COk y -> cval_eq x y | CErr, CErr -> true | CPanic, CPanic -> true | _ -> false
 
-let known_flag clamp rounded =
-  if clamp then Some "int_clamp" else if rounded then Some "int_fraction_rounded" else None
+let known_flag rounded =
+  if rounded then Some "int_fraction_rounded" else None
 
 let f _id vs =
   match vs with
@@ -177,9 +180,8 @@ let f _id vs =
       if not contradicts then "OK"
       else
         let involved = as_bool ecp && tn <> [] && tn = c.c_name in
-        let clamp = involved && eval_flag num_clamped c rq st in
         let rounded = involved && eval_flag num_rounded c rq st in
-        match known_flag clamp rounded with
+        match known_flag rounded with
         | Some fl -> "KNOWN " ^ fl ^ " " ^ txt
         | None -> "PROP " ^ txt
     end else if contradicts then "PROP " ^ txt
@@ -195,7 +197,7 @@ let f _id vs =
     let same = cres_eq impl model and contradicts = not (cres_eq impl spec) in
     if same then begin
       if not contradicts then "OK"
-      else match known_flag (conv_flag num_clamped ty jv) (conv_flag num_rounded ty jv) with
+      else match known_flag (conv_flag num_rounded ty jv) with
         | Some fl -> "KNOWN " ^ fl ^ " " ^ txt
         | None -> "PROP " ^ txt
     end else if contradicts then "PROP " ^ txt
